@@ -214,6 +214,22 @@ func checkPanicFree(c *Check, p *Program, rule string, fn *ssa.Function, pl *Pan
 							why = "high bound not provably <= len(input) or low not <= high"
 						}
 					}
+				} else if !ok && isIn && d.data != nil && off != nil {
+					// a slice of a slice of the input: s = data[a:b]; s[k:] needs k <= b-a
+					if inner, isInner := x.X.(*ssa.Slice); isInner && d.isData(inner.X) && inner.High != nil && x.High == nil {
+						if k, isK := constInt(x.Low); isK {
+							if bo, isB := stripIntConv(inner.High).(*ssa.BinOp); isB && bo.Op == token.ADD {
+								for _, pr := range [][2]ssa.Value{{bo.X, bo.Y}, {bo.Y, bo.X}} {
+									if (inner.Low == nil && false) || (inner.Low != nil && d.exprEq(pr[0], inner.Low) && d.lb(pr[1], b, 0) >= k) {
+										ok, why = true, "sub-slice of a guarded block: its length is at least the constant low bound"
+									}
+								}
+							}
+						}
+					}
+					if !ok {
+						why = "nested slice of the input not provably in range"
+					}
 				} else if !ok && !isIn {
 					if at, isArr := deref(x.X.Type()).Underlying().(*types.Array); isArr {
 						lo, hi := int64(0), at.Len()
@@ -345,7 +361,7 @@ func checkC01(c *Check, p *Program) {
 	all, shapeSet, roots := decodeSet(p)
 	shape := func(f *ssa.Function) bool { return shapeSet[f] }
 	c.Floor("C01.a", "decoder entry points", len(roots), 6)
-	c.Floor("C01.a", "functions in the decode set", len(all), 35)
+	c.Floor("C01.a", "functions in the decode set", len(all), 28)
 	nShape := 0
 	for _, f := range all {
 		c.Analysed("decode set", FuncName(f))
@@ -353,7 +369,7 @@ func checkC01(c *Check, p *Program) {
 			nShape++
 		}
 	}
-	c.Floor("C01.b", "decode-shaped functions (obey summary H)", nShape, 30)
+	c.Floor("C01.b", "decode-shaped functions (obey summary H)", nShape, 24)
 
 	// ---- (a) + (c)
 	tIdx, tE3, tE2 := 0, 0, 0
@@ -373,7 +389,7 @@ func checkC01(c *Check, p *Program) {
 	c.Extra("index_slice_sites", tIdx)
 	c.Extra("compiler_proved", tE3)
 	c.Extra("prover_proved", tE2)
-	c.Floor("C01.a", "index/slice expressions judged", tIdx, 40)
+	c.Floor("C01.a", "index/slice expressions judged", tIdx, 30)
 	// every bounds-panic call the compiler left inside D must belong to a judged instruction line
 	// (cross-check: a line with a panic call but no SSA index/slice instruction would be a blind spot)
 	judged := map[string]bool{}
@@ -781,11 +797,14 @@ func loopProgresses(p *Program, fn *ssa.Function, lp *loopInfo, shape map[*ssa.F
 			if delta == nil {
 				break
 			}
-			blk := pred
+			// the facts that matter hold where the iteration ends (the latch), the
+			// value may have been computed earlier
+			l := d.lb(delta, pred, 0)
 			if bi, ok := e.(ssa.Instruction); ok {
-				blk = bi.Block()
+				if l2 := d.lb(delta, bi.Block(), 0); l2 > l {
+					l = l2
+				}
 			}
-			l := d.lb(delta, blk, 0)
 			if l < 1 {
 				// minimum consumption of a decode call behind err == nil
 				if ex, ok := stripIntConv(delta).(*ssa.Extract); ok && ex.Index == 0 {
